@@ -44,6 +44,11 @@ def cases(tier, seed):
         out.append(dict(kind='panel', model=model, lam=lam, fbase=fb, m=m, n=n, state=st, gq=gq, form=form, seed=seed))
         if lam == 'general' and form == '6x6' and gq == 'exact' and fb == 'SSSS' and (m, n) in [(2, 2), (3, 2)] and st in ('zero', 'tiny', 'moderate'):
             out.append(dict(kind='panel', model=model, lam=lam, fbase=fb, m=m, n=n, state=st, gq=gq, form=form, preload=1, seed=seed))
+            if st == 'moderate':
+                # the same Panel object evaluated first under another definition (side length / edge restraints), with the same pre-load
+                for redef in ('a', 'b', 'flags', 'r'):
+                    out.append(dict(kind='panel', model=model, lam=lam, fbase=fb, m=m, n=n, state=st, gq=gq, form=form, preload=1,
+                                    redef=redef, seed=seed))
         if lam == 'general' and form == '6x6' and gq == 'exact' and fb == 'generic' and (m, n) in [(2, 2), (3, 2)]:
             out.append(dict(kind='panel', model=model, lam=lam, fbase=fb, m=m, n=n, state=st, gq=gq, form=form, ortho=1, seed=seed))
     for conn, order, st, hist in itertools.product(['SSycte', 'SSxcte', 'BFycte', 'SB'], ['p1first', 'p2first'], ['moderate', 'large'],
@@ -91,6 +96,16 @@ def check_panel(case):
     ref, lam = pan.make_ref(cfg)
     ref = ref.base
     F, h = lam['ABD'], lam['h']
+    if case.get('redef'):
+        other = dict(cfg)
+        other.update(dict(a=dict(a=0.75), b=dict(b=0.31), flags=dict(fbase='CCCC'), r=dict(r=2.0))[case['redef']])
+        p = pan.make_panel(other)
+        p.Nxx_cte, p.Nyy_cte, p.Nxy_cte = -2.0e3, 0.7e3, 0.4e3
+        c_other = make_state(ref, h, 'moderate', seed + 1)
+        p.calc_k0(silent=True)
+        p.calc_fint(c_other.copy(), silent=True)
+        p.calc_kT(c=c_other.copy(), silent=True)
+        pan.retarget(p, cfg)
     if case.get('preload'):
         p.Nxx_cte, p.Nyy_cte, p.Nxy_cte = -2.0e3, 0.7e3, 0.4e3
     if case.get('ortho'):
